@@ -10,6 +10,9 @@ Oracles on the implementation's own outputs (independent of the model):
   closed    no TParam / TApp / TVar / ETraitCall in the real Mono, Lift and ANF dumps
   names     function names of the real Mono program pairwise distinct
   instances no reference from Mono code to a Core function that has no Mono instance
+  once      no two functions of the real Mono program are the same instance of one Core function (same signature and
+            body up to the own name, whatever they are called); in the `req:` catalogue exactly the two requested
+            instances of `q` exist, however many routes asked for them
   type-instances  every construction / arm pattern / field read of a data type in the real Mono program carries
             the field types of the ONE definition monoenv holds under that type's name (two instantiations
             given one name leave one definition: the code of the other one disagrees with it)
@@ -82,6 +85,10 @@ def collect(ctx):
             d["unspec"] = [x.split(">") for x in r[2:]]
         elif k == "TYINST":
             d["tyinst"] = [[vlib.unesc(y) for y in x.split("\x1f")] for x in r[2:]]
+        elif k == "DUPINST":
+            d["dupinst"] = [[vlib.unesc(y) for y in x.split(">")] for x in r[2:]]
+        elif k == "EXPECTINST":
+            d["expectinst"] = (vlib.unesc(r[2]), int(r[3]), int(r[4]))
         elif k == "TYINSTN":
             d["tyinstn"] = (int(r[2]), int(r[3]))
         elif k in ("PANIC", "REJECT"):
@@ -132,6 +139,7 @@ def run(ctx):
     n_sem = n_sem_eq = n_sem_skip_stuck = n_sem_skip_fuel = n_sem_skip_ext = 0
     n_closed = n_closed_ok = 0
     n_inst = n_tyinst_sites = n_tyinst_types = 0
+    n_dup_groups = n_req = n_req_ok = 0
     later_panics = {}
     distinct, samples = set(), []
     streams = {}
@@ -143,6 +151,8 @@ def run(ctx):
             ctx.report({"oracle": "watchdog", "kind": "mono-does-not-terminate", "family": "main-stream"},
                        "the compiler kept running for 30 s on this program; the rest of the run was abandoned", {"id": k, "src": src})
             continue
+        if k.startswith("req:") and ("reject" in d or "core" not in d):
+            ctx.broken_ties.append(("catalogue req: a program of the request-route catalogue is not accepted", f"{k}: {d.get('reject') or d.get('panic')}"))
         if "core" not in d:
             continue
         m = model.get(k)
@@ -181,6 +191,25 @@ def run(ctx):
         if dups:
             ctx.report({"oracle": "names", "kind": "duplicate-instance-name"}, "two functions of the Mono program share a name",
                        {"id": k, "src": src, "duplicates": dups})
+        # ---- oracle: every instance is generated exactly once (whatever the copies are called)
+        for grp in d.get("dupinst", []):
+            n_dup_groups += 1
+            ctx.report({"oracle": "instances", "kind": "instance-generated-more-than-once"},
+                       f"the Mono program contains {len(grp) - 1} functions that are the same instance of `{grp[0]}` (same parameters, result "
+                       "type and body up to the function's own name): " + ", ".join(grp[1:]),
+                       {"id": k, "src": src, "core_function": grp[0], "copies": grp[1:], "routes": k.split(":")[2] if k.startswith("req:") else None})
+        # ---- catalogue `req:`: one generic function asked for at two instantiations through several routes
+        if "expectinst" in d:
+            n_req += 1
+            q, want, got = d["expectinst"]
+            if got == want:
+                n_req_ok += 1
+            else:
+                ctx.report({"oracle": "instances", "kind": "instance-count", "direction": "more" if got > want else "fewer"},
+                           f"`{q}` is requested at exactly {want} instantiations (each through several routes: call, function value, from a generic "
+                           f"function, from a closure, …) but the Mono program holds {got} instances of it",
+                           {"id": k, "src": src, "core_function": q, "expected": want, "got": got,
+                            "instances": [n for n in names if n == q or n.startswith(q + "__")]})
         # ---- oracle: a call names an instance of exactly its own type (no two instantiations share an instance)
         if d.get("callsig"):
             ctx.report({"oracle": "instances", "kind": "call-annotation-differs-from-instance-signature"},
@@ -321,7 +350,11 @@ def run(ctx):
     cov = {
         "evaluations": len(main) + len(rec), "distinct_nontrivial": len(distinct),
         "rule": "one case = one goml program (74 corpus programs, witnesses under corpus/C07, the instantiation-pair catalogue `inst:` (5 generic "
-                "containers x 17 positions of the one differing leaf inside the argument's type tree, leaf pair rotating with the seed), generated programs over a library of generic "
+                "containers x 17 positions of the one differing leaf inside the argument's type tree, leaf pair rotating with the seed), the request-route "
+                "catalogue `req:` (16 signature shapes of a 2-3 parameter generic function/method whose type parameters first occur in different orders in the "
+                "declaration, the parameter list and the result x the 9 (methods: 5) ways of asking for an instance — call, function value as argument / let / "
+                "returned / array element / struct field, call or value inside another generic instance, call inside a closure — two or all routes per "
+                "program, both orders, two instantiations), generated programs over a library of generic "
                 "functions/methods/types plus random generic functions, instantiated at primitives, tuples, arrays, Vec, Ref, function types, "
                 "structs, enums, nested and recursive generic types, trait-bounded generics); non-trivial = at least two specialised instances; "
                 "distinct by the set of instance names",
@@ -329,6 +362,8 @@ def run(ctx):
         "streams": streams, "generator_features": feats,
         "tie_cases": n_tie, "tie_mono_dump_equal": n_tie_eq, "tie_both_panic": n_tie_panic,
         "instances_specialised_total": n_inst,
+        "request_route_programs": n_req, "request_route_programs_with_exactly_two_instances": n_req_ok,
+        "groups_of_repeated_instances": n_dup_groups,
         "type_instance_use_sites_checked": n_tyinst_sites, "type_instances_used(sum over programs)": n_tyinst_types,
         "sem_compared": n_sem, "sem_equal": n_sem_eq, "sem_skipped_core_needs_type_passing": n_sem_skip_stuck,
         "sem_skipped_fuel": n_sem_skip_fuel, "sem_with_extern_events(compared)": n_sem_skip_ext,
